@@ -1760,6 +1760,18 @@ def rule_dead(ctx):
                 sets = [n for f in top_fors for n in ast.walk(f) if isinstance(n, ast.Assign) and isinstance(n.targets[0], ast.Name) and n.targets[0].id == flag
                         and isinstance(n.value, ast.Constant) and n.value.value is True]
                 same_for = any(is_inside(pa.node, node, f) for f in top_fors for node, _, _ in fb)
+                if flag is None and isinstance(bt, ast.Compare) and len(bt.ops) == 1 and isinstance(bt.left, ast.Name) \
+                        and isinstance(bt.ops[0], (ast.Eq, ast.LtE)) and const_int(bt.comparators[0]) == 0:
+                    # the same thing with a counter of still-running workers: `n = 0 ... n += 1 ... if n == 0: break`
+                    flag = bt.left.id
+                    resets = [n for n in mon.body if isinstance(n, ast.Assign) and isinstance(n.targets[0], ast.Name) and n.targets[0].id == flag
+                              and const_int(n.value) == 0]
+                    sets = [n for f in top_fors for n in ast.walk(f) if isinstance(n, ast.AugAssign) and isinstance(n.op, ast.Add)
+                            and isinstance(n.target, ast.Name) and n.target.id == flag and const_int(n.value) == 1]
+                    others = [n for n in ast.walk(mon) if isinstance(n, (ast.Assign, ast.AugAssign)) and n not in resets and n not in sets
+                              and any(isinstance(x, ast.Name) and x.id == flag and isinstance(x.ctx, ast.Store) for x in ast.walk(n))]
+                    if others:
+                        sets = []
                 if flag and resets and sets and same_for and mon.body.index(resets[0]) < mon.body.index(top_fors[0]):
                     final_ok, why = True, ""
                 else:
